@@ -30,17 +30,19 @@ Qed.
 Definition close_step (c : cfg) (x xp : R) : Prop :=
   Rabs (x - xp) < c_atol c /\ Rabs (x - xp) / Rmax (Rabs xp) (c_atol c) < c_rtol c.
 
-Lemma finish_cases : forall c s fx r0 r1 g0 g1 (b : bool) nxt,
+Lemma finish_cases : forall c ait s fx r0 r1 g0 g1 (b : bool) nxt,
   let n := clip (if b then Some r0 else c_lo c) (if b then Some r1 else c_hi c) (x2 s) nxt in
-  finish c s fx r0 r1 g0 g1 b nxt = SFail DivZero \/
-  (finish c s fx r0 r1 g0 g1 b nxt = SDone n /\ close_step c n (x2 s)) \/
-  finish c s fx r0 r1 g0 g1 b nxt = SCont (mkst (x1 s) (x2 s) n fx r0 r1 g0 g1 b).
+  finish c ait s fx r0 r1 g0 g1 b nxt = SFail DivZero \/
+  (finish c ait s fx r0 r1 g0 g1 b nxt = SDone n /\ close_step c n (x2 s) /\ ait = false) \/
+  finish c ait s fx r0 r1 g0 g1 b nxt = SCont (mkst (x1 s) (x2 s) n fx r0 r1 g0 g1 b).
 Proof.
   intros. unfold finish. fold n.
   destruct (Req_EM_T (Rmax (Rabs (x2 s)) (c_atol c)) 0); [left; reflexivity|].
   destruct (Rlt_dec (Rabs (n - x2 s)) (c_atol c)); [|right; right; reflexivity].
   destruct (Rlt_dec (Rabs (n - x2 s) / Rmax (Rabs (x2 s)) (c_atol c)) (c_rtol c)).
-  - right; left. split; [reflexivity|]. split; assumption.
+  - destruct ait.
+    + right; right; reflexivity.
+    + right; left. split; [reflexivity|]. split; [split; assumption|reflexivity].
   - right; right; reflexivity.
 Qed.
 
@@ -63,17 +65,17 @@ Section SolverProofs.
   Proof. intros [l|] x y; cbn; intros; auto; lra. Qed.
 
   (* what [finish] guarantees when it is entered with a consistent bracket *)
-  Lemma finish_post : forall s fx r0 r1 g0 g1 b nxt,
+  Lemma finish_post : forall ait s fx r0 r1 g0 g1 b nxt,
     r0 <= r1 -> f r0 = Some g0 -> f r1 = Some g1 ->
     (b = true -> g0 * g1 < 0 /\ r0 <= x2 s <= r1) ->
     in_lo (c_lo c) (x2 s) -> in_lo (c_lo c) r0 -> in_hi (c_hi c) (x2 s) -> in_hi (c_hi c) r1 ->
-    match finish c s fx r0 r1 g0 g1 b nxt with
+    match finish c ait s fx r0 r1 g0 g1 b nxt with
     | SFail _ => True
     | SDone x => close_step c x (x2 s) /\ in_lo (c_lo c) x /\ in_hi (c_hi c) x /\ (b = true -> r0 <= x <= r1)
     | SCont s' => Inv s' /\ x1 s' = x2 s /\ rb0 s' = r0 /\ rb1 s' = r1 /\ bnd s' = b
     end.
   Proof.
-    intros s fx r0 r1 g0 g1 b nxt Ho H0 H1 Hb Hlx Hl0 Hhx Hh1.
+    intros ait s fx r0 r1 g0 g1 b nxt Ho H0 H1 Hb Hlx Hl0 Hhx Hh1.
     set (n := clip (if b then Some r0 else c_lo c) (if b then Some r1 else c_hi c) (x2 s) nxt).
     assert (Hn : in_lo (c_lo c) n /\ in_hi (c_hi c) n /\ (b = true -> r0 <= n <= r1)).
     { unfold n. destruct b.
@@ -85,7 +87,7 @@ Section SolverProofs.
       - destruct (clip_in (c_lo c) (c_hi c) (x2 s) nxt) as [A B]; auto.
         repeat split; auto; intros; discriminate. }
     destruct Hn as [Hnl [Hnh Hnb]].
-    destruct (finish_cases c s fx r0 r1 g0 g1 b nxt) as [E|[[E Hc]|E]]; fold n in E; rewrite E.
+    destruct (finish_cases c ait s fx r0 r1 g0 g1 b nxt) as [E|[[E [Hc _]]|E]]; fold n in E; rewrite E.
     - exact I.
     - fold n in Hc. split; [exact Hc|]. split; [exact Hnl|]. split; [exact Hnh|exact Hnb].
     - split; [|cbn; auto].
@@ -136,8 +138,8 @@ Section SolverProofs.
     - (* Aitken *)
       destruct (aitken_next s) as [nxt|]; [|exact I].
       destruct HI as [Ho H0 H1 Hb [Hlx Hl0] [Hhx Hh1]].
-      pose proof (finish_post s fx (rb0 s) (rb1 s) (fb0 s) (fb1 s) (bnd s) nxt Ho H0 H1 Hb Hlx Hl0 Hhx Hh1) as HF.
-      destruct (finish c s fx (rb0 s) (rb1 s) (fb0 s) (fb1 s) (bnd s) nxt) as [s'|x|r]; cbn [post].
+      pose proof (finish_post true s fx (rb0 s) (rb1 s) (fb0 s) (fb1 s) (bnd s) nxt Ho H0 H1 Hb Hlx Hl0 Hhx Hh1) as HF.
+      destruct (finish c true s fx (rb0 s) (rb1 s) (fb0 s) (fb1 s) (bnd s) nxt) as [s'|x|r]; cbn [post].
       + destruct HF as [Hi [Hx [Hr0 [Hr1 Hbn]]]].
         split; [exact Hi|]. split; [exact Hx|].
         intros Hbt. rewrite Hbn, Hr0, Hr1. split; [exact Hbt|]. split; lra.
@@ -155,10 +157,10 @@ Section SolverProofs.
       { intros Hbt. destruct (Hm Hbt) as [Hp _]. unfold sgn_lt0. destruct (Rlt_dec (g0 * g1) 0); [reflexivity|contradiction]. }
       assert (Hord : r0 <= r1) by lra.
       destruct (derivative f c it s fx (sgn_lt0 g0 g1)) as [[d|]|]; try exact I.
-      assert (HF : forall nxt, post s (finish c s fx r0 r1 g0 g1 (sgn_lt0 g0 g1) nxt)).
+      assert (HF : forall nxt, post s (finish c false s fx r0 r1 g0 g1 (sgn_lt0 g0 g1) nxt)).
       { intros nxt.
-        pose proof (finish_post s fx r0 r1 g0 g1 (sgn_lt0 g0 g1) nxt Hord Hf0 Hf1 Hbnew Hlx Hl0 Hhx Hh1) as HF.
-        destruct (finish c s fx r0 r1 g0 g1 (sgn_lt0 g0 g1) nxt) as [s'|x|r]; cbn [post].
+        pose proof (finish_post false s fx r0 r1 g0 g1 (sgn_lt0 g0 g1) nxt Hord Hf0 Hf1 Hbnew Hlx Hl0 Hhx Hh1) as HF.
+        destruct (finish c false s fx r0 r1 g0 g1 (sgn_lt0 g0 g1) nxt) as [s'|x|r]; cbn [post].
         - destruct HF as [Hi [Hx [Hr0 [Hr1 Hbn]]]].
           split; [exact Hi|]. split; [exact Hx|].
           intros Hbt. rewrite Hbn, Hr0, Hr1. destruct (Hm Hbt) as [_ [? ?]].
@@ -256,9 +258,9 @@ Section SolverProofs.
     destruct (loop_converged _ _ _ _ H) as [it [s [_ Hs]]].
     exists (x2 s). unfold step in Hs.
     destruct (f (x2 s)) as [fx|]; [|discriminate].
-    assert (HF : forall r0 r1 g0 g1 bb nxt, finish c s fx r0 r1 g0 g1 bb nxt = SDone x -> close_step c x (x2 s)).
-    { intros r0 r1 g0 g1 bb nxt E.
-      destruct (finish_cases c s fx r0 r1 g0 g1 bb nxt) as [E'|[[E' Hc]|E']]; rewrite E' in E; try discriminate.
+    assert (HF : forall ait r0 r1 g0 g1 bb nxt, finish c ait s fx r0 r1 g0 g1 bb nxt = SDone x -> close_step c x (x2 s)).
+    { intros ait r0 r1 g0 g1 bb nxt E.
+      destruct (finish_cases c ait s fx r0 r1 g0 g1 bb nxt) as [E'|[[E' [Hc _]]|E']]; rewrite E' in E; try discriminate.
       inversion E; subst. exact Hc. }
     destruct (andb (c_aitken c) (Nat.eqb (it mod 3) 0)).
     - destruct (aitken_next s); [|discriminate]. eapply HF; eauto.
@@ -867,12 +869,12 @@ Qed.
    bound on |f|. *)
 Lemma newton_step_residual_partial : forall c s fx r0 r1 g0 g1 b d x,
   d <> 0 -> c_relax c <> 0 ->
-  finish c s fx r0 r1 g0 g1 b (x2 s + - fx / d * c_relax c) = SDone x ->
+  finish c false s fx r0 r1 g0 g1 b (x2 s + - fx / d * c_relax c) = SDone x ->
   x = x2 s + - fx / d * c_relax c ->
   Rabs fx < c_atol c * Rabs d / Rabs (c_relax c).
 Proof.
   intros c s fx r0 r1 g0 g1 b d x Hd Hr HF Hx.
-  destruct (finish_cases c s fx r0 r1 g0 g1 b (x2 s + - fx / d * c_relax c)) as [E|[[E [Hc _]]|E]];
+  destruct (finish_cases c false s fx r0 r1 g0 g1 b (x2 s + - fx / d * c_relax c)) as [E|[[E [[Hc _] _]]|E]];
     rewrite E in HF; try discriminate.
   inversion HF as [En]. rewrite En in Hc. rewrite Hx in Hc.
   replace (x2 s + - fx / d * c_relax c - x2 s) with (- (fx * c_relax c / d)) in Hc by (field; auto).
@@ -883,4 +885,16 @@ Proof.
   rewrite E1. unfold Rdiv. rewrite <- Rmult_assoc.
   apply Rmult_lt_compat_r; [apply Rinv_0_lt_compat; lra|].
   apply Rmult_lt_compat_r; [lra|]. exact Hc.
+Qed.
+
+(* an Aitken extrapolation pass never ends the run *)
+Lemma done_not_on_aitken_pass : forall f c it s x,
+  step f c it s = SDone x -> andb (c_aitken c) (Nat.eqb (it mod 3) 0) = false.
+Proof.
+  intros f c it s x H. unfold step in H.
+  destruct (f (x2 s)) as [fx|]; [|discriminate].
+  destruct (andb (c_aitken c) (Nat.eqb (it mod 3) 0)); [|reflexivity].
+  destruct (aitken_next s) as [nxt|]; [|discriminate].
+  destruct (finish_cases c true s fx (rb0 s) (rb1 s) (fb0 s) (fb1 s) (bnd s) nxt) as [E|[[E [_ E2]]|E]];
+    rewrite E in H; discriminate.
 Qed.
